@@ -55,7 +55,7 @@ theorem linkValidate_nil_parts (ctrlRoute : String) (m : Method) (h : linkValida
     let route := ((m.annots.filter (·.name = "Route")).head?.map (·.value)).getD ""
     let urlParams := extractUrlParams ctrlRoute ++ extractUrlParams route
     let pathAttrs := m.annots.filter (·.name = "Path")
-    let funcParams := m.params.map (·.name)
+    let funcParams := (m.params.filter fun p => !isContextType p.type).map (·.name)
     -- every {name} of the FULL route (controller prefix + method route) is referenced by a @Path (by alias or by name)
     (∀ p ∈ urlParams, (pathAttrs.map fun a => match aliasOf a with | .ok v => v | _ => a.value).contains p = true) ∧
     -- every @Path names a parameter, carries a well-typed alias, and a non-empty alias is a {name} of the route
@@ -220,15 +220,15 @@ theorem params_referenced (ctrlRoute : String) (m : Method) (hnd : (m.params.map
   simp only [hctx, Bool.not_false, Bool.and_true, Bool.not_eq_true', Bool.not_eq_false] at hp'
   -- p.name ∈ seen2 ++ values of the other binding annotations that name a parameter
   have hmem : p.name ∈ (linkValidate.goPath (extractUrlParams ctrlRoute ++ extractUrlParams (((m.annots.filter (·.name = "Route")).head?.map (·.value)).getD ""))
-      (m.params.map (·.name)) (m.annots.filter (·.name = "Path")) [] [] []).2 ++
+      ((m.params.filter fun p => !isContextType p.type).map (·.name)) (m.annots.filter (·.name = "Path")) [] [] []).2 ++
       ((m.annots.filter fun a => isBindingAnnot a.name && !(a.value.toList.all (· = ' '))).filter
-        fun a => (m.params.map (·.name)).contains a.value).map (·.value) := by
+        fun a => ((m.params.filter fun p => !isContextType p.type).map (·.name)).contains a.value).map (·.value) := by
     simpa using hp'
   rcases List.mem_append.1 hmem with h1 | h1
   · -- values accumulated by the @Path pass are values of @Path annotations
     have key : ∀ (as : List Annot) (sp sv sa : List String) (x : String),
         x ∈ (linkValidate.goPath (extractUrlParams ctrlRoute ++ extractUrlParams (((m.annots.filter (·.name = "Route")).head?.map (·.value)).getD ""))
-              (m.params.map (·.name)) as sp sv sa).2 → x ∈ sp ∨ ∃ a ∈ as, a.value = x := by
+              ((m.params.filter fun p => !isContextType p.type).map (·.name)) as sp sv sa).2 → x ∈ sp ∨ ∃ a ∈ as, a.value = x := by
       intro as
       induction as with
       | nil => intro sp sv sa x hx; simp [linkValidate.goPath] at hx; exact Or.inl hx
